@@ -841,8 +841,8 @@ fn gate(run: &mut ERun, idx: &mut u64) {
 pub fn configs(thorough: bool) -> Vec<PtCfg> {
     let b = PtCfg::base();
     let mut v = vec![
-        PtCfg { use_host_ino: true, ..b.clone() },
-        PtCfg { use_host_ino: true, behind_vfs: true, ..b.clone() },
+        PtCfg { use_host_ino: true, mntid: true, ..b.clone() },
+        PtCfg { use_host_ino: true, behind_vfs: true, mntid: true, ..b.clone() },
         PtCfg { inode_file_handles: true, no_open: true, no_opendir: true, ..b.clone() },
     ];
     if thorough {
